@@ -46,7 +46,8 @@ func c03Check(env *core.Env, cc core.Case) core.Verdict {
 		_ = os.MkdirAll(filepath.Join(root, "regex-assembly", "include"), 0o755)
 		_ = os.MkdirAll(filepath.Join(root, "regex-assembly", "exclude"), 0o755)
 		var o obs
-		extraEnv := []string{"TZ=" + c03TZ[i%len(c03TZ)]}
+		// also the scheduler width and the collector's eagerness are varied: neither is an input
+		extraEnv := []string{"TZ=" + c03TZ[i%len(c03TZ)], "GOMAXPROCS=" + []string{"16", "1", "2", "5"}[i%4], "GOGC=" + []string{"100", "1", "off", "20"}[(i/2)%4]}
 		cwd := root
 		if i%2 == 1 {
 			cwd = filepath.Join(root, "regex-assembly")
@@ -204,7 +205,7 @@ func init() {
 	register(&core.Property{
 		ID:    "C03",
 		Level: "exploration",
-		Rule: "every case is executed K times (quick 12, thorough 40) in fresh processes on byte-identical inputs, with varying TZ, working directory and delivery of standard input (one write, two writes with a pause, 7-byte writes, a regular file; some programs exceed the 64 KiB pipe buffer): (a) `regex generate -` on programs of an ambiguity lane (lines that more than one directive pattern could claim, 1..4 suffix-replacement pairs with chains and keys that are suffixes of each other, 2..8 definitions nested to depth 4 in shuffled order, flag sets written in any order with repeats) and on programs of the C01 lanes and the include / include-except / definition generators; (b) format --all, update --all, compare --all (text and github) and single-target forms on K copies of a generated CRS tree, created in ascending or descending order of the file names, half of them on a memory file system (/dev/shm, where a directory lists its entries in creation order). " +
+		Rule: "every case is executed K times (quick 12, thorough 40) in fresh processes on byte-identical inputs, with varying TZ, GOMAXPROCS, GOGC, working directory and delivery of standard input (one write, two writes with a pause, 7-byte writes, a regular file; some programs exceed the 64 KiB pipe buffer): (a) `regex generate -` on programs of an ambiguity lane (lines that more than one directive pattern could claim, 1..4 suffix-replacement pairs with chains and keys that are suffixes of each other, 2..8 definitions nested to depth 4 in shuffled order, flag sets written in any order with repeats) and on programs of the C01 lanes and the include / include-except / definition generators; (b) format --all, update --all, compare --all (text and github) and single-target forms on K copies of a generated CRS tree, created in ascending or descending order of the file names, half of them on a memory file system (/dev/shm, where a directory lists its entries in creation order). " +
 			"Oracle: stdout bytes, exit status and (for tree commands) the resulting snapshot are identical in all K executions. The hook log shows which map iteration orders the K runs actually went through; a generate case is non-trivial only if >= 2 distinct internal orders were observed while the outcome stayed the same (with two equally likely outcomes the chance that K runs agree by luck is 2^(1-K)).",
 		Cases: func(env *core.Env, rng *rand.Rand) []core.Case {
 			n := env.N(300, 1500)
